@@ -1399,6 +1399,21 @@ func lkAnalyse() *lkResult {
 					if w.isMutex(&lkTy{dir: d, e: fl.Type}) {
 						name, ok := lkAlias[k]
 						if !ok {
+							// the struct type or the mutex field may have been renamed: the alias of the
+							// pinned (type, field) whose current names are these
+							for pk, alias := range lkAlias {
+								pd := pk[:strings.Index(pk, ":")]
+								rest := pk[len(pd)+1:]
+								pt, pf := rest[:strings.Index(rest, ".")], rest[strings.Index(rest, ".")+1:]
+								if pd != d || resolveName(pd, pt) != tn {
+									continue
+								}
+								if pf == nm.Name || lkFieldRenamed(pd, pt, pf) == nm.Name {
+									name, ok = alias, true
+								}
+							}
+						}
+						if !ok {
 							name = k
 						}
 						w.locks[k] = name
@@ -1809,4 +1824,34 @@ func lockFacts() string {
 		fmt.Fprintf(&b, "--   note: %s\n", n)
 	}
 	return b.String()
+}
+
+// lkFieldRenamed: the current name of field `f` of the pinned struct type `t` (same position and type).
+func lkFieldRenamed(dir, t, f string) string {
+	loadBaseline()
+	base := sigBaseline[dir]
+	cur := sigCurrent[dir]
+	if cur == nil {
+		cur, _ = pkgDecls(filepath.Join(repo, dir))
+		sigCurrent[dir] = cur
+	}
+	b, ok := base[t]
+	if !ok || cur == nil {
+		return f
+	}
+	typeRen := typeRenames(base, cur)
+	c, ok := cur[resolveName(dir, t)]
+	if !ok {
+		return f
+	}
+	bf, cf := structFields(substTypes(b.Sig, typeRen)), structFields(c.Sig)
+	if len(bf) != len(cf) {
+		return f
+	}
+	for i := range bf {
+		if bf[i][0] == f && bf[i][1] == cf[i][1] {
+			return cf[i][0]
+		}
+	}
+	return f
 }
